@@ -1150,3 +1150,12 @@ package raft
 //@ ensures result1 == nil ==> result0.Type == pb.Replicate && result0.To == to && result0.LogIndex == next - 1 && result0.LogTerm == r.log.termAt(next - 1) && result0.Commit == r.log.committed
 //@ ensures result1 == nil ==> (forall i int :: 0 <= i && i < len(result0.Entries) ==> result0.Entries[i].Index == next + i && result0.Entries[i].Term == r.log.termRaw(next + i))
 //@ ensures result1 == nil ==> len(result0.Entries) == 0 || next + len(result0.Entries) <= r.log.lastIdx() + 1
+
+// ---------------------------------------------------------------- C04: what a restarted replica resumes with
+// the persisted hard state is taken over field by field -- term, vote and commit index -- and only if its commit index
+// lies within the log that was replayed (otherwise fail-stop)
+//@ func (r *raft) loadState [C04 C03]
+//@ nobounds
+//@ requires r.wf()
+//@ modifies r.log.committed, r.term, r.vote
+//@ ensures r.term == st.Term && r.vote == st.Vote && r.log.committed == st.Commit && st.Commit >= old(r.log.committed)
